@@ -7,6 +7,11 @@ ROOT = os.path.dirname(os.path.dirname(os.path.abspath(__file__)))
 
 # id -> (level category, technique, level text, level note, design section)
 CHECKS = {
+ "C16": ("exploration",
+         "Go race detector over a repeated mixed concurrent workload (report blocks counted from its log files, attributed by in_toto frames) + concurrent-vs-sequential result equality + interleaving census from hook events",
+         "Fresh worker processes run 2-32 goroutines (GOMAXPROCS 2/4/16) that issue mixed independent library calls on their own trees, keys and metadata, starting cold; half of the processes are -race builds whose hook handler only yields, the other half log hook events (interleaving census) - in all of them every concurrent result is compared with the result of the same call made sequentially on an identical copy of the data.",
+         "Trusted: the race detector (sees only executed paths); schedules are sampled, not enumerated. Inspections without run directory (shared cwd) are excluded from 'independent data'.",
+         "C16"),
  "C15": ("exploration",
          "crash monitor (recover + journal attribution of process-fatal errors) and hang monitor with causal witnesses (CPU-time spin / thread blocked in read on a pipe), over random + structure-aware hostile inputs, enumerated catalogues and coverage-guided fuzzing",
          "Hostile byte strings and structure-aware mutations of valid metadata go through both loaders and then the whole post-load API; a catalogue of ~110 degenerate but correctly signed layouts and ~27 hostile link directories (complete enumeration: fault-enumeration style) goes through Sign, InTotoVerify(WithDirectory), LoadMetadata and ValidateMetablock; the thorough tier adds native coverage-guided fuzzing of three targets bounded by execution count. Any panic, process-fatal error, spin or blocked read is a violation with the panic site as signature.",
